@@ -48,6 +48,7 @@ CODES = {
     "C14": {1, 5, 6, 9, 12, 13},
     # integrity (ExecI.v): 20 image does not load in the model, 21 NewVerifier, 22 Verify, 23 callback
     # reports, 24 AnySignedBy, 25 AllSignedBy; 30 image does not load, 31 NewSigner/Sign result, 32 signed bytes
+    "C09": {1, 2, 3, 5, 9, 14},
     "C04": {20, 21, 22, 23},
     "C05": {20, 21, 22, 23},
     "C06": {20, 21, 22, 23, 30, 31, 32},
@@ -260,6 +261,12 @@ def determ_args(tier, seed, variant=""):
     return ["-seed", str(seed), "-n", "1200", "-shards", "48", "-maxcap", "16", "-maxops", "30", "-bigevery", "60"]
 
 
+def crash_args(tier, seed, variant=""):
+    if tier == "quick":
+        return ["-seed", str(seed), "-n", "90", "-shards", "16", "-maxcap", "8", "-maxops", "10"]
+    return ["-seed", str(seed), "-n", "400", "-shards", "48", "-maxcap", "12", "-maxops", "24", "-bigevery", "40", "-thorough"]
+
+
 def verify_args(mode, nq, nt):
     def f(tier, seed, variant=""):
         if tier == "quick":
@@ -269,6 +276,7 @@ def verify_args(mode, nq, nt):
 
 
 FAMILIES = {
+    "C09": [("crash", crash_args)],
     "C04": [("verify", verify_args("tamper", 60, 100000))],
     "C05": [("verify", verify_args("coverage", 80, 100000)), ("verify", verify_args("tamper", 30, 400))],
     "C06": [("verify", verify_args("signverify", 40, 600)), ("verify", verify_args("keys", 24, 200))],
